@@ -2,10 +2,11 @@ SPECIFICATION Spec
 CONSTANTS
   MaxB = 3
   MaxN = 3
+  Refs = {0, 1}
+  SymKinds = {"R"}
+  KeepMode = "few"
   ValTab <- ValsPrime
-  Refs = {0, 1, 2, 3, 4}
-  SymKinds = {}
   Canon = TRUE
-  Kinds = {"R","Y","LV","V","VL","I","IL","S","O"}
+  Kinds = {"R","Vr","IL","S","O"}
 INVARIANT Check
 CHECK_DEADLOCK FALSE
